@@ -359,6 +359,44 @@ static Reg r_build("build", [](std::istringstream& is) {
 	}
 	if (cl) enc_into(j, "clone", cl.get());
 	if (cp) enc_into(j, "copy", cp.get());
+	// the same transfers with a DECODED message as the source (shallow-created by the factory: e.g. a zero count field has no group object behind it)
+	if (encok && has("dclone"))
+	{
+		try
+		{
+			std::unique_ptr<Message> d(Message::factory(ctx, enc, false, false));
+			std::unique_ptr<Message> c2(d->clone());
+			enc_into(j, "dclone", c2.get());
+		}
+		catch (...) { j.k("dclone").raw(describe_exception()); }
+	}
+	if (encok && has("dcopy"))
+	{
+		try
+		{
+			std::unique_ptr<Message> d(Message::factory(ctx, enc, false, false));
+			std::unique_ptr<Message> t(ctx.create_msg(d->get_msgtype().c_str(), true));
+			d->copy_legal(t.get());
+			d->Header()->copy_legal(t->Header());
+			d->Trailer()->copy_legal(t->Trailer());
+			enc_into(j, "dcopy", t.get());
+		}
+		catch (...) { j.k("dcopy").raw(describe_exception()); }
+	}
+	if (encok && has("dmove"))
+	{
+		try
+		{
+			std::unique_ptr<Message> d(Message::factory(ctx, enc, false, false));
+			std::unique_ptr<Message> t(ctx.create_msg(d->get_msgtype().c_str(), true));
+			d->move_legal(t.get());
+			d->Header()->move_legal(t->Header());
+			d->Trailer()->move_legal(t->Trailer());
+			d.reset();
+			enc_into(j, "dmove", t.get());
+		}
+		catch (...) { j.k("dmove").raw(describe_exception()); }
+	}
 	if (encok && has("dec"))
 	{
 		try
